@@ -112,28 +112,124 @@ def du2_parse_table(ctx):
     pattern_field_check(ctx, 'DU2', 'duration_parse')
 
 
+def du3_sum_table(ctx, b):
+    """what combine_durations returns for a match with two, three or four captured fields: the sum of all captured durations
+    (nothing else: no first-only, no last-only, no difference), Err when a field holds no duration. Tabulated with E6c: the
+    durations are opaque symbols and `+` builds a formal sum, so the table does not depend on whether the function loops,
+    folds or sums."""
+    import itertools
+    from ..absint import Machine, Unknown, is_sym, is_ptr
+    from .. import absstr
+    tys = [str(b.locals.get(i, '')) for i in range(1, b.argc + 1)]
+    fld = [i for i, t in enumerate(tys, 1) if 'BTreeMap<' in t]
+    if len(fld) != 1:
+        raise AnchorLost('combine_durations: expected one BTreeMap parameter (the captured fields): %s' % tys)
+
+    def dsum(*vals):
+        terms = []
+        for v in vals:
+            if isinstance(v, tuple) and v and v[0] == 'dsum':
+                terms += list(v[1])
+            elif is_sym(v):
+                terms.append(v[1])
+            else:
+                raise Unknown('a duration operand is %r' % (v,))
+        return ('dsum', tuple(sorted(terms)))
+
+    def walk(present):
+        keys = [str(k + 1) for k in range(len(present))]
+
+        def key_of(m, v):
+            v = m.deref_value(v)
+            if absstr.is_str(v):
+                v = ''.join(map(str, v[1]))
+            return v if isinstance(v, str) else None
+
+        def model(m, path, args, t):
+            a0 = m.deref_value(args[0]) if args else None
+            ismap = isinstance(a0, dict) and a0.get('__adt__') == 'BTreeMap'
+            if re.search(r'BTreeMap::<.*>::contains_key$', path) and ismap and len(args) == 2:
+                k = key_of(m, args[1])
+                if k is None:
+                    raise Unknown('contains_key of %r' % (m.deref_value(args[1]),))
+                return int(k in keys)
+            if re.search(r'BTreeMap::<.*>::(keys|into_keys)$', path) and ismap:
+                return ('it', list(keys), 'keys')
+            if re.search(r'BTreeMap::<.*>::(len)$', path) and ismap:
+                return len(keys)
+            if re.search(r'BTreeMap::<.*>::is_empty$', path) and ismap:
+                return int(not keys)
+            if re.search(r'BTreeMap::<.*>::(iter|values)$|BTreeMap<.*>::into_iter$', path) and ismap:
+                raise Unknown('the fields are iterated by value (%s): not modelled' % path.rsplit('::', 1)[-1])
+            if re.search(r'tools::get_duration$', path) and len(args) == 2:
+                k = [key_of(m, a) for a in args if key_of(m, a) is not None]
+                if len(k) != 1 or k[0] not in keys:
+                    return absstr.none(m)
+                i = keys.index(k[0])
+                return absstr.some(m, ('sym', 'D%s' % k[0])) if present[i] else absstr.none(m)
+            if re.search(r'TimeDelta::zero$', path):
+                return ('dsum', ())
+            if re.search(r'TimeDelta as core::ops::Add>::add$|TimeDelta as core::ops::AddAssign>::add_assign$', path) and len(args) == 2:
+                if path.endswith('add_assign'):
+                    absstr.write_back(m, args[0], dsum(a0, m.deref_value(args[1])))
+                    return ('sym', 'unit')
+                return dsum(a0, m.deref_value(args[1]))
+            if re.search(r'TimeDelta::checked_add$', path) and len(args) == 2:
+                return absstr.some(m, dsum(a0, m.deref_value(args[1])))
+            if re.search(r'Iterator>?::sum$', path) and args:
+                items = absstr.as_items(m, args[0])
+                if items is not None:
+                    return dsum(*[m.deref_value(x) for x in items])
+            if re.search(r'TimeDelta as core::ops::(Sub|Neg|Mul|Div)', path) or re.search(r'TimeDelta::(abs|checked_sub)$', path):
+                raise Unknown('combine_durations applies %s to a captured duration' % path.rsplit('::', 1)[-1])
+            r = absstr.std_model(m, path, args, t)
+            if r is not NotImplemented:
+                return r
+            return NotImplemented
+        m = Machine(b, model, max_steps=6000)
+        for i in range(1, b.argc + 1):
+            m.env[i] = m.alloc({'__adt__': 'BTreeMap'}, 'fields') if i == fld[0] else ('sym', 'arg%d' % i)
+        why = m.run(0)
+        if why != 'return':
+            raise Unknown('the walk ended with %s' % why)
+        out = m.deref_value(m.load(0))
+        if not (isinstance(out, dict) and '__discr__' in out and str(out.get('__adt__', '')).endswith('Result')):
+            raise Unknown('the result is %r' % (out,))
+        if out['__discr__'] == 1:
+            return 'Err'
+        v = m.deref_value(out['0'])
+        if isinstance(v, dict) and v.get('__variant__') == 'Duration':
+            d = m.deref_value(v['0'])
+            return 'Duration(%s)' % (' + '.join(d[1]) if isinstance(d, tuple) and d and d[0] == 'dsum' else 'D%s' % d[1][1:] if is_sym(d) and d[1].startswith('D') else d,)
+        return 'Ok(%r)' % (v,)
+
+    n = 0
+    bad = {}
+    for size in (2, 3, 4):
+        for present in itertools.product((1, 0), repeat=size):
+            n += 1
+            try:
+                got = walk(present)
+            except Unknown as ex:
+                ctx.finding('DU3', 'combine_durations/sum/not-extractable', 'what combine_durations returns could not be tabulated (%d captured fields): %s' % (size, ex), site=b.loc)
+                return
+            want = 'Duration(%s)' % ' + '.join('D%d' % (k + 1) for k in range(size)) if all(present) else 'Err'
+            if got != want:
+                bad.setdefault('sum' if all(present) else 'missing-duration', []).append((present, got, want))
+    for which, rows in sorted(bad.items()):
+        present, got, want = rows[0]
+        ctx.finding('DU3', 'combine_durations/%s' % which, 'with %d captured fields (%s) combine_durations returns %s; expected %s - %d of %d cases differ' % (
+            len(present), ', '.join('a duration' if p_ else 'not a duration' for p_ in present), got, want, len(rows), n), site=b.loc)
+    if not bad:
+        ctx.ok('DU3', 'combine_durations: the sum of all captured durations (2..4 fields), Err when a field holds none - %d cases walked' % n, 'absint', site=b.loc)
+
+
 def du3_additivity(ctx):
     """DU3 adjacent durations and + add, - subtracts"""
     ctx.rule('DU3', 'additivity', floor=3)
     b = rule_body(ctx, 'combine_durations')
     ctx.fn(b)
-    adds = list(b.calls(r'TimeDelta as core::ops::Add>::add$'))
-    if len(adds) != 1 or not b.in_loop(adds[0][0]):
-        ctx.finding('DU3', 'combine_durations/sum', 'combine_durations does not accumulate with one `sum + duration` per field', site=b.loc)
-    else:
-        t = adds[0][1]
-        l, r = render(b.expr(t['args'][0])), render(b.expr(t['args'][1]))
-        keys = any(re.search(r'BTreeMap::<.*>::keys$|btree_map::Keys', tt['callee']['path']) for _, tt in b.calls() if tt.get('callee'))
-        if 'get_duration(' in r and 'fields' in r and ('zero' in l or 'sum' in l or 'loop' in l or 'phi' in l) and keys:
-            ctx.ok('DU3', 'combine_durations: sum += get_duration(key) for every key of fields', 'shape', site=t['loc'])
-        else:
-            ctx.finding('DU3', 'combine_durations/sum-shape', 'combine_durations adds %s and %s' % (l[:60], r[:60]), site=t['loc'])
-    subs = list(b.calls(r'TimeDelta as core::ops::Sub>::sub$'))
-    if subs:
-        ctx.finding('DU3', 'combine_durations/subtracts', 'combine_durations subtracts', site=subs[0][1]['loc'])
-    # initial value is zero
-    if not list(b.calls(r'TimeDelta::zero$')):
-        ctx.finding('DU3', 'combine_durations/initial', 'the sum does not start from Duration::zero()', site=b.loc)
+    du3_sum_table(ctx, b)
     c = ctx.facts.one(r'^<compiler::duration::DurationItem as compiler::DataItem>::calculate$')
     ctx.fn(c)
     od = {v['name']: v['discr'] for v in ctx.facts.adts['compiler::OperationType']['variants']}
@@ -407,6 +503,13 @@ def du5_selection_table(ctx):
         raise AnchorLost('enum constants::DurationFormatType not found')
     vs = adt['variants']
 
+    def text_of(v):
+        if isinstance(v, str):
+            return v
+        if absstr.is_str(v) and all(isinstance(c, str) and len(c) == 1 for c in v[1]):
+            return ''.join(v[1])
+        return None
+
     def walk(entries, duration):
         def model(m, path, args, t):
             a0 = m.deref_value(args[0]) if args else None
@@ -414,10 +517,10 @@ def du5_selection_table(ctx):
                 return ('str', ['n'])
             if re.search(r'str::<impl str>::trim(_start|_end)?$', path) and absstr.is_str(a0):
                 return a0
-            if re.search(r'str::<impl str>::parse$|FromStr>::from_str$', path) and absstr.is_str(a0):
-                x = a0[1][0] if len(a0[1]) == 1 else None
-                if isinstance(x, str) and x.startswith('num:'):
-                    return m.make_adt('core::result::Result::Ok', [int(x[4:])], [])
+            if re.search(r'str::<impl str>::parse$|FromStr>::from_str$', path) and text_of(a0) is not None:
+                x = text_of(a0)
+                if re.fullmatch(r'[+-]?[0-9]+', x):
+                    return m.make_adt('core::result::Result::Ok', [int(x)], [])
                 return m.make_adt('core::result::Result::Err', [('sym', 'ParseIntError')], [])
             mm = re.search(r'Result::<.*>::(is_ok|is_err|unwrap_or_default|ok)$', path)
             if mm and isinstance(a0, dict) and '__discr__' in a0:
@@ -433,6 +536,8 @@ def du5_selection_table(ctx):
             mm = re.search(r'cmp::PartialEq\b.*::(eq|ne)$', path)
             if mm and len(args) == 2:
                 x, y = m.deref_value(args[0]), m.deref_value(args[1])
+                if text_of(x) is not None and text_of(y) is not None:           # the count column against a literal
+                    return int((text_of(x) == text_of(y)) == (mm.group(1) == 'eq'))
                 if isinstance(x, dict) and isinstance(y, dict) and '__discr__' in x and '__discr__' in y:
                     same = x['__discr__'] == y['__discr__']
                     return int(same if mm.group(1) == 'eq' else not same)
@@ -482,7 +587,7 @@ def du5_selection_table(ctx):
         items = []
         for k, (same, cnt) in enumerate(entries):
             items.append({'__adt__': 'constants::JsonDurationFormat', '__variant__': 'JsonDurationFormat',
-                          'count': ('str', [{'E': 'num:%d' % duration, 'N': 'num:%d' % (duration + 3), 'G': 'word'}[cnt]]),
+                          'count': ('str', list({'E': '%d' % duration, 'N': '%d' % (duration + 3), 'G': 'n'}[cnt])),
                           'format': ('str', ['F%d' % k]),
                           'duration_type': m.make_adt('constants::DurationFormatType::%s' % (vs[0]['name'] if same else vs[1]['name']), [], [])})
         fmt = {'__adt__': 'constants::JsonFormat', '__variant__': 'JsonFormat', 'duration': ('vec', items)}
